@@ -74,7 +74,8 @@ MS0(c) == WMInit(1..Len(c.prog),
 G0(c) == [acc |-> [h \in 1..c.nh |-> IF h <= c.pre THEN h - 1 ELSE -1],
           lt |-> [i \in 0..c.ns - 1 |-> 0],
           stack |-> <<>>,
-          tslot |-> [t \in 1..Len(c.prog) |-> -1]]
+          tslot |-> [t \in 1..Len(c.prog) |-> -1],
+          pinned |-> {}]   \* slots of accessors that were released while locked and not reset
 H0(c) == [open |-> [k \in (1..c.nh) \cup {10 + t : t \in 1..Len(c.prog)} |-> 0],
           unl |-> {}, bound |-> [k \in (1..c.nh) \cup {10 + t : t \in 1..Len(c.prog)} |-> MAXV],
           freed |-> {}, bad |-> ""]
@@ -172,7 +173,12 @@ Call(t) ==
                   /\ SetL(t, [L[t] EXCEPT !.snap = {<<k, H.bound[k]>> : k \in {x \in Keys : H.open[x] >= 1 /\ H.bound[x] < MAXV}}])
                   /\ Goto(t, "lw_count") /\ UNCHANGED <<G, H>>
              [] o.op = "create" -> Goto(t, "cr") /\ UNCHANGED <<L, G, H>>
-             [] o.op = "release" -> Goto(t, "rl") /\ UNCHANGED <<L, G, H>>
+             [] o.op = "release" ->
+                  \* Accessor::release() / ~Accessor().  A region that is still open ends here: "a released Accessor
+                  \* never holds the mark back"
+                  /\ SetL(t, [L[t] EXCEPT !.idx = idx])
+                  /\ H' = [H EXCEPT !.open[o.h] = 0, !.unl = @ \ {o.h}, !.bound[o.h] = MAXV]
+                  /\ Goto(t, IF G.lt[idx] > 0 THEN "rl_reset" ELSE "rl") /\ UNCHANGED G
   /\ UNCHANGED <<cfg, ms>>
 
 Ret(t) ==
@@ -297,6 +303,20 @@ CreateFaa(t, M(_), force) ==
                         /\ Goto(t, "ret"))
   /\ UNCHANGED <<cfg, H>>
 
+\* release of an accessor that is still locked: the slot is force-unlocked (lock_times = 0, version = MAX, release)
+\* BEFORE the id goes back to the allocator.  Order "none" = the code under test has no such step (the commit
+\* originally pinned): the slot stays published and lock_times stays > 0 - also for the next owner of the id.
+RlReset(t, M(_)) ==
+  /\ pc[t] = "rl_reset"
+  /\ IF M("release_slot_store") = "none"
+     THEN /\ G' = [G EXCEPT !.pinned = @ \cup {L[t].idx}]
+          /\ ev' = [NoEv EXCEPT !.t = t, !.k = "skip", !.site = "release_slot_store", !.mo = "none"]
+          /\ UNCHANGED ms
+     ELSE /\ DoSlotStore(t, SlotLoc(L[t].idx), MAXV, "release_slot_store", M)
+          /\ G' = [G EXCEPT !.lt[L[t].idx] = 0]
+  /\ Goto(t, "rl")
+  /\ UNCHANGED <<cfg, L, H>>
+
 ReleasePush(t, M(_)) ==
   /\ pc[t] = "rl"
   /\ DoRmw(t, FreeLoc, "cas", LAMBDA o : 0, 0, "dealloc_free_cas", M,
@@ -366,7 +386,7 @@ Step(t, M(_)) ==
   \/ TlAlloc(t, M) \/ LVLoad(t, M) \/ LSStore(t, M) \/ LFence(t, M) \/ UStore(t, M)
   \/ TFaa(t, M) \/ TFence(t, M)
   \/ LwCount(t, M) \/ LwTCount(t, M) \/ LwSlot(t, M)
-  \/ CreatePop(t, M) \/ CreateFaa(t, M, FALSE) \/ ReleasePush(t, M)
+  \/ CreatePop(t, M) \/ CreateFaa(t, M, FALSE) \/ RlReset(t, M) \/ ReleasePush(t, M)
   \/ Read(t, M) \/ Deref(t) \/ Unlink(t, M) \/ Reclaim(t) \/ Give(t, M) \/ Take(t, M)
 
 AllDone == \A t \in Thr : pc[t] = "idle" /\ ~HasOp(t)
@@ -384,6 +404,11 @@ ReaderLeftBeforeReclaim == ~ms.race
 \* stays published
 SlotOf(k) == IF k > 10 THEN G.tslot[k - 10] ELSE G.acc[k]
 NestingCounts == \A k \in Keys : H.open[k] >= 1 => (SlotOf(k) >= 0 /\ LastVal(ms, SlotLoc(SlotOf(k))) # MAXV)
-\* a slot nobody holds locked (unlocked, released, recycled) is "outside": it cannot hold the mark back
-ReleasedAccessorNeverHoldsBack == \A i \in 0..NS - 1 : G.lt[i] = 0 => LastVal(ms, SlotLoc(i)) = MAXV
+\* a slot nobody holds (its accessor is unlocked, released, or the id is free / recycled and not locked) is "outside":
+\* it cannot hold the mark back.  Held = some open region lives in it, or a lock / unlock / release of it is executing.
+Held(i) == \/ \E k \in Keys : SlotOf(k) = i /\ H.open[k] >= 1
+           \/ \E t \in Thr : pc[t] \notin {"idle", "tl_alloc"} /\ Op(t).op \in {"lock", "unlock", "release"} /\ L[t].idx = i
+ReleasedAccessorNeverHoldsBack == \A i \in 0..NS - 1 : (i \notin G.pinned /\ ~Held(i)) => LastVal(ms, SlotLoc(i)) = MAXV
+\* ... also when it was released while locked (separate witness class: the commit originally pinned has no reset)
+ReleasedWhileLockedNeverHoldsBack == G.pinned = {}
 =============================================================================
